@@ -13,7 +13,7 @@ THEOREMS = ["C09_unique", "C09_unique_from", "C09_complete", "C09_sequential", "
 OFFSET_MS = 946684800000
 U64 = 2 ** 64
 BASES = [1759276800000, OFFSET_MS + 1, OFFSET_MS + 1000, U64 - 2]     # T; T-1 and T+1 stay inside [OFFSET, 2^64)
-RULE = ("SCHED lines: 2-3 (corpus: 1-4) threads x 1-3 calls, clock readings drawn from {T-1, T, T+1} around a base T "
+RULE = ("SCHEDX lines = the same schedules with the calls going through new_std_payload_bundle / new_status_report_bundle in rotation with now() (every public entry point that generates a fresh creation timestamp must draw from the one shared generator); SCHED lines: 2-3 (corpus: 1-4) threads x 1-3 calls, clock readings drawn from {T-1, T, T+1} around a base T "
         "(a 2025 date, the DTN epoch + 1, u64::MAX - 1) plus far-apart readings; schedules are random grant sequences "
         "(0 .. 4 grants per call, so both 2-step and 3/4-step implementations are interleaved at every yield point), exact "
         "interleavings, and whole-call orders (O); thorough adds every interleaving of 2 threads x 2 calls and 3 x 1 at 2 and "
@@ -55,7 +55,7 @@ def parse(line):
     tok = line.split()
     if tok and tok[0] in ("D", "R"):
         tok = tok[1:]
-    if len(tok) < 3 or tok[0] != "SCHED" or not tok[1].isdigit():
+    if len(tok) < 3 or tok[0] not in ("SCHED", "SCHEDX") or not tok[1].isdigit():
         return None
     n = int(tok[1])
     readings, i, whole = [], 2, None
@@ -144,6 +144,7 @@ def corpus():
         mk([[t], []], [1, 1, 0]),
         mk([[t + 5, t], [t + 3, t + 9]], [0, 1, 0, 1, 1, 0, 1, 0]),
     ]
+    out += [l.replace("SCHED ", "SCHEDX ", 1) for l in out]
     return out
 
 
@@ -201,6 +202,13 @@ def exhaustive_orders(shape, base):
 
 
 def cases(rng, tier):
+    out = _cases(rng, tier)
+    # the same schedules with the calls going through the crate's other entry points that generate a fresh creation timestamp
+    # (new_std_payload_bundle, new_status_report_bundle in rotation with now()): same expected result
+    return out + [l.replace("SCHED ", "SCHEDX ", 1) for l in out[::4] if l.startswith("SCHED ")]
+
+
+def _cases(rng, tier):
     out = []
     t = BASES[0]
     if tier == "quick":
